@@ -178,7 +178,7 @@ class C15(Check):
                 a, b = answers[i], answers[j]
                 v.probe("verdicts_compared")
                 if a[3] != b[3]:
-                    v.violate("C15", "verdict_disagree", sorted([a[1], b[1]]), {a[0]: a[3], b[0]: b[3]}, None, b[0])
+                    v.violate("C15", "verdict_disagree", sorted(set((a[1] + "+" + b[1]).split("+"))), {a[0]: [a[1], a[3]], b[0]: [b[1], b[3]]}, None, b[0])
                     continue
                 if nobj and a[3] == "solution" and a[4] is not None and b[4] is not None:
                     comparable = nobj == 1 or all(x[2].get("optimizer") != "optimize" or x[2].get("optimize_priority") == "weight" for x in (a, b))
@@ -186,7 +186,7 @@ class C15(Check):
                     if comparable and not capped:
                         v.probe("optima_compared")
                         if a[4] != b[4]:
-                            v.violate("C15", "optimum_disagree", sorted([a[1], b[1]]), {a[0]: a[4], b[0]: b[4]}, None, b[0])
+                            v.violate("C15", "optimum_disagree", sorted(set((a[1] + "+" + b[1]).split("+"))), {a[0]: [a[1], a[4]], b[0]: [b[1], b[4]]}, None, b[0])
         if len(answers) >= 2 or any(e.get("outcome") == "solution" for e in result["events"]):
             v.key = [spec_kinds(spec), sorted(cfg_name(c["config"]) for c in plan["clients"]), [a[3] for a in answers]]
         return v
